@@ -160,7 +160,15 @@ def apply_op(pool, d, o):
         elif n == "Reverse":
             d.reverse(); out = ["None"]
         elif n == "Copy":
-            out = obs_dl(pool, copy.copy(d))
+            if a and a[0] == "ctor":
+                # the copy constructor DictList(other); the copy is then edited: the original must not notice
+                c = DictList(d)
+                out = obs_dl(pool, c)
+                if len(c):
+                    c.pop(0)
+                    c.reverse()
+            else:
+                out = obs_dl(pool, copy.copy(d))
         elif n == "Pickle":
             out = obs_dl(pool, pickle.loads(pickle.dumps(d)), pickled=True)
         elif n == "GetItem":
@@ -289,7 +297,7 @@ def single_step_ops(nids, idx_range, slice_vals, slice_steps):
             ops.append(["SetSlice", s, es])
     for i in range(nids):
         ops += [["HasId", i], ["GetById", i]]
-    ops += [["Sort", 0], ["Sort", 1], ["Sort", 0, "cmp"], ["Reverse"], ["Copy"], ["Pickle"], ["Len"]]
+    ops += [["Sort", 0], ["Sort", 1], ["Sort", 0, "cmp"], ["Reverse"], ["Copy"], ["Copy", "ctor"], ["Pickle"], ["Len"]]
     for m in [[], [0], [1, 2], list(range(nids))]:
         ops.append(["Query", m])
     return ops
@@ -384,6 +392,8 @@ def rand_history(rng, nids, length):
             o = [n, rng.randrange(nids)]
         else:
             o = [n]
+            if n == "Copy" and rng.random() < 0.5:
+                o.append("ctor")
         ops.append(o)
         cur = track(cur, o)
     return {"init": init, "ops": ops}
